@@ -27,6 +27,7 @@ from .validation import (
     validate_positive_int,
     validate_float,
     validate_array,
+    validate_nn_distances,
 )
 
 
@@ -227,6 +228,7 @@ class DimensionalityEstimator(BaseEstimator):
         self.mu_dim = validate_float(mu_dim, "mu_dim")
         self.mu_dens = validate_float(mu_dens, "mu_dens", optional=True)
         self.distances = validate_array(distances, "distances", optional=True)
+        self.distances = validate_nn_distances(self.distances, optional=True)
         self.transform = None
         self.loss_func = None
         self.opt_state = None
@@ -375,6 +377,7 @@ class DimensionalityEstimator(BaseEstimator):
         k = self.k
         logger.info("Computing distances.")
         distances = compute_distances(x, k=k)
+        distances = validate_nn_distances(distances)
         return distances
 
     def _compute_nn_distances(self):
